@@ -67,6 +67,23 @@ func (w *World) ruleRecursionReadsStream(r *Report, rule string, min int) {
 		}
 		return false
 	}
+	// the stream-read closure over the same edges (a function that only makes
+	// the literal that reads counts as reaching the read)
+	for changed := true; changed; {
+		changed = false
+		for _, f := range w.SrcFuncs() {
+			if closure[f] {
+				continue
+			}
+			for _, c := range edges(f) {
+				if closure[c] {
+					closure[f] = true
+					changed = true
+					break
+				}
+			}
+		}
+	}
 	n := 0
 	for _, f := range fns {
 		if !onCycle(f) {
